@@ -22,7 +22,13 @@ import (
 // RNG is splitmix64; every random choice of a harness derives from one of these.
 type RNG struct{ s uint64 }
 
-func NewRNG(seed uint64) *RNG { return &RNG{s: seed*0x9E3779B97F4A7C15 + 0x1234567} }
+// NewRNG seeds a generator. The seed is passed through the splitmix finaliser first: with a
+// plain affine seeding, seeds s and s+1 would give the same stream shifted by one draw.
+func NewRNG(seed uint64) *RNG {
+	r := &RNG{s: seed ^ 0x6a09e667f3bcc909}
+	r.s = r.U64() ^ (seed * 0xD6E8FEB86659FD93)
+	return r
+}
 
 func (r *RNG) U64() uint64 {
 	r.s += 0x9E3779B97F4A7C15
